@@ -6,6 +6,7 @@ import (
 	"go/token"
 	"go/types"
 	"regexp"
+	"regexp/syntax"
 	"sort"
 	"strings"
 	"time"
@@ -98,6 +99,8 @@ func C04(p *load.Prog, r *oblig.Run) {
 	r.Rule("R04.b", "month table = the 23 documented spellings, each with its month", 23)
 	r.Rule("R04.c", "canonical print re-parses: constraint words, 3-letter months and the range format are accepted and map back", 20)
 	r.Rule("R04.r", "range pattern: between/and word groups are exactly the documented words", 7)
+	// a valid date must not silently become the zero date: the zero-time rule of C05 applies to the parser as well
+	c05ZeroTime(p, r)
 	r.Rule("R04.m", "the month-name lookup in parseDateParts handles a word that is not in the table", 1)
 	r.Rule("R04.w", "a range is valid only if both of its ends are (DateRange.IsValid answers true only after both ends were found non-zero)", 1)
 	c04RangeValid(p, r)
@@ -225,7 +228,7 @@ func C04(p *load.Prog, r *oblig.Run) {
 
 	// R04.p covering table
 	type shape struct{ day, month, year string }
-	shapes := []shape{{"", "", "1900"}, {"", "Sep", "1900"}, {"3", "Sep", "1900"}, {"03", "september", "89"}}
+	shapes := []shape{{"", "", "1900"}, {"", "Sep", "1900"}, {"3", "Sep", "1900"}, {"03", "september", "89"}, {"", "", "7"}, {"", "Jan", "66"}, {"31", "Dec", "900"}}
 	kw := []string{""}
 	kwClass := map[string]string{"": "Exact"}
 	for cls, ws := range c04Documented {
@@ -373,6 +376,27 @@ func C04(p *load.Prog, r *oblig.Run) {
 	}
 	r.Extra["range_pattern"] = rpat
 	rpos := p.Pos(rg.Pos())
+	// R04.s: a pattern that separates its words by exactly one space is only applied to space-normalised text
+	r.Rule("R04.s", "a date pattern whose words are separated by exactly one space is applied to text that went through CleanSpace", 1)
+	{
+		o := r.Add("R04.s", "input of the range pattern", p.Pos(rcall.Pos()), "space normalisation before the range pattern")
+		bare, perr := hasBareSpace(rpat)
+		switch {
+		case perr != nil:
+			o.Unknown("cannot parse the range pattern: " + perr.Error())
+		case !bare:
+			o.OK("the range pattern accepts runs of spaces itself")
+		default:
+			arg := su.Strip(rcall.Call.Args[1])
+			c, isCall := arg.(*ssa.Call)
+			clean := p.Func(load.PkgRoot, "CleanSpace")
+			if isCall && clean != nil && c.Call.StaticCallee() == clean {
+				o.OK("single-space pattern, input is CleanSpace(...)")
+			} else {
+				o.Fail("the range pattern separates its words by exactly one space but is applied to text that did not go through CleanSpace: a documented range with an extra space next to the between/and word (\"Bet.  1900 and 1910\") is no longer recognised as a range and is reported invalid")
+			}
+		}
+	}
 	rre := regexp.MustCompile(rpat)
 	// groups whose captured text is parsed as dates: constant indices of the submatch passed to parseDateParts
 	dgs := groupIndicesPassedTo(nrs, rcall, parse)
@@ -932,4 +956,36 @@ func c04RangeValid(p *load.Prog, r *oblig.Run) {
 	default:
 		o.OK(fmt.Sprintf("%d path(s) answering true, each after both ends were found non-zero", n))
 	}
+}
+
+// hasBareSpace: the pattern contains a space that is not the operand of a + or * repetition (words separated by
+// exactly one space).
+func hasBareSpace(pat string) (bool, error) {
+	re, err := syntax.Parse(pat, syntax.Perl)
+	if err != nil {
+		return false, err
+	}
+	var walk func(n *syntax.Regexp, repeated bool) bool
+	walk = func(n *syntax.Regexp, repeated bool) bool {
+		switch n.Op {
+		case syntax.OpLiteral:
+			for _, c := range n.Rune {
+				if c == ' ' && !(repeated && len(n.Rune) == 1) {
+					return true
+				}
+			}
+			return false
+		case syntax.OpPlus, syntax.OpStar:
+			return walk(n.Sub[0], true)
+		case syntax.OpRepeat:
+			return walk(n.Sub[0], n.Max == -1)
+		}
+		for _, sub := range n.Sub {
+			if walk(sub, false) {
+				return true
+			}
+		}
+		return false
+	}
+	return walk(re, false), nil
 }
